@@ -366,6 +366,21 @@ func c11Check(c C11Case, rec *evid.Rec) error {
 				if n1 > 0 && string(buf[:n1]) != content[:n1] {
 					return fmt.Errorf("first reader returned %x, content starts %x", buf[:n1], content[:n1])
 				}
+				if op.A%2 == 1 {
+					// directly after the partial read: another reader only learns the length (what a subset matcher
+					// does), then the first one continues where it was
+					rl, err := lb.AsLargeBytes()
+					if err != nil {
+						return err
+					}
+					if size, err := rl.Seek(0, io.SeekEnd); err != nil || size != int64(len(content)) {
+						return fmt.Errorf("Seek(0, SeekEnd) on another reader = %d, %v; content has %d bytes", size, err, len(content))
+					}
+					cont, err := io.ReadAll(r1)
+					if err != nil || string(cont) != content[n1:] {
+						return fmt.Errorf("the first reader, continued after it had read %d bytes and another reader had sought to the end, returns %x (err %v); the rest of the content is %x", n1, cont, err, content[n1:])
+					}
+				}
 				// a second reader must start at the beginning whatever the first one did
 				all, err := io.ReadAll(r2)
 				if err != nil || string(all) != content {
